@@ -70,6 +70,7 @@ type connPlan struct {
 	Auth    string // none | auth | selected
 	S       *stream
 	Send    []byte
+	HeadLen int // not Full, not Closes: the accountable head Send[:HeadLen] is sent and answered before the rest goes out
 	Expects []expectation
 	Conts   int
 	Full    bool   // the whole stream is accountable and leaves the session open: DONE (if idling) + probe follow
@@ -211,7 +212,11 @@ func buildPlan(x *gen, s *stream, auth string) *connPlan {
 
 		p.Send = append(p.Send, "ZZ9PROBE0 NOOP\r\n"...)
 	default:
+		// The accountable head goes out first and is answered before the damaged rest follows: what the rest makes the
+		// server do (20 errors, LOGOUT: close) must not race with the answers to the head - a server that closes with
+		// unread input resets the connection, and a reset may destroy responses the client has not read yet.
 		p.Send = input
+		p.HeadLen = min(off, len(input))
 		p.Abrupt = pickOf(x, "abrupt", []string{"fin", "rst"})
 
 		// F-C11a (while listed): a reset may discard what the server has not read yet, so the server can see any
@@ -524,17 +529,26 @@ func runConn(addr string, p *connPlan, budget time.Duration) (res connResult) {
 		}
 	}
 
-	rc.log = append(rc.log, fmt.Sprintf("C: (%d bytes, chunks %v) %s", len(p.Send), p.Chunks, summarise(p.Send)))
+	first, rest := p.Send, []byte(nil)
+	if !p.Full && p.Closes == "" {
+		first, rest = p.Send[:p.HeadLen], p.Send[p.HeadLen:]
+	}
+
+	rc.log = append(rc.log, fmt.Sprintf("C: (%d bytes, chunks %v) %s", len(first), p.Chunks, summarise(first)))
 
 	var wg sync.WaitGroup
 
-	wg.Add(1)
+	send := func(b []byte) {
+		wg.Add(1)
 
-	go func() {
-		defer wg.Done()
+		go func() {
+			defer wg.Done()
 
-		rc.write(p.Send, p.Chunks)
-	}()
+			rc.write(b, p.Chunks)
+		}()
+	}
+
+	send(first)
 
 	defer wg.Wait()
 
@@ -618,8 +632,16 @@ func runConn(addr string, p *connPlan, budget time.Duration) (res connResult) {
 			}
 		}
 	default:
-		// the accountable head of the stream must be answered; then the client goes away mid-stream
+		// the accountable head of the stream must be answered; then the rest goes out and the client goes away mid-stream
 		read(func() bool { return len(res.Completions) >= len(p.Expects) }, budget)
+
+		if res.TimedOut == "" && !res.Closed && res.Violation == "" && len(rest) > 0 {
+			wg.Wait()
+
+			rc.log = append(rc.log, fmt.Sprintf("C: (%d bytes) %s", len(rest), summarise(rest)))
+
+			send(rest)
+		}
 
 		if p.Linger && res.TimedOut == "" && !res.Closed && res.Violation == "" {
 			n := len(res.Completions)
